@@ -252,6 +252,45 @@ func Now() time.Time {
 	return time.Now()
 }
 
+type waiter struct {
+	at int64
+	ch chan time.Time
+}
+
+var waiters []*waiter
+
+// fireWaiters (hook lock held): timers of the virtual clock that are due
+func fireWaiters() {
+	keep := waiters[:0]
+	for _, w := range waiters {
+		if w.at <= clockNs {
+			select {
+			case w.ch <- time.Unix(0, clockNs):
+			default:
+			}
+		} else {
+			keep = append(keep, w)
+		}
+	}
+	waiters = keep
+}
+
+// After replaces time.After in rewritten fan2go files: in virtual time the channel fires when the virtual clock has
+// advanced by d (through virtual sleeps of any goroutine), so a time-out built on it is measured on the same clock as
+// the sleeps it bounds.
+func After(d time.Duration) <-chan time.Time {
+	mu.Lock()
+	if !clockOn {
+		mu.Unlock()
+		return time.After(d)
+	}
+	w := &waiter{at: clockNs + int64(d), ch: make(chan time.Time, 1)}
+	waiters = append(waiters, w)
+	fireWaiters()
+	mu.Unlock()
+	return w.ch
+}
+
 // Sleep replaces time.Sleep in rewritten fan2go files: in virtual time it only advances the clock.
 func Sleep(d time.Duration) {
 	mu.Lock()
@@ -259,6 +298,7 @@ func Sleep(d time.Duration) {
 	if on {
 		clockNs += int64(d)
 		sleepLog = append(sleepLog, d)
+		fireWaiters()
 	}
 	h := SleepHook
 	mu.Unlock()
